@@ -37,6 +37,22 @@ register("C15", "proof",
          TB + "PV.PyStr character classes are CPython's (checked against the running interpreter each run).",
          "Lean 4 proof (list induction over lines/tags) + model/code correspondence", "DESIGN.md §4 C15")
 
+register("C16", "proof",
+         "The property quantifies over finite tables; they are regenerated from /repo on every run (tools/extract.py: every structure class and plural singleton, every intrinsic wrapper called with marker "
+         "arguments, every IntEnum) and decided completely by Lean kernel evaluation (decide +kernel): structures_ok / structures_hash_ok / named_slot_resolves (stored hash = signed CRC-32 of the prefab bytes, "
+         "plural reachable with the same prefab and hash, named slots resolve to numbered slots), intrinsic_rows_ok_partial / intrinsic_names_and_order_ok (own opcode, operands in argument order, result iff the "
+         "instruction has an output register, opcode in the repository's instruction list), enum_values_injective / enum_member_unique. Nine wrappers that contradict their instruction on the pinned tree are "
+         "known findings F-C16-a/b, excluded by name and refuted in PV.Findings.C16. An independent Python pass (zlib, inspect) cross-checks the translator and names the failing row when a theorem breaks.",
+         TB + "CRC-32 model PV.Crc32 (bitwise, reflected) and the instruction signature table PV.IC10.Spec are hand-written specifications.",
+         "Lean 4 kernel evaluation (decide +kernel) over tables regenerated from the source by a translator", "DESIGN.md §4 C16")
+
+register("C17", "proof",
+         "Lean theorems splitlines_join / num_lines_ok / num_bytes_crlf / empty_program: for every list of break-free lines (last one non-empty) the transpiler's formulas give the number of lines and the length "
+         "with two-byte line ends; the Stats model is tied to get_code by correspondence on the real results of all shipped programs and generated programs under random option vectors, and the register count is "
+         "compared with the allocator's real virtual-to-physical map captured by a harness-side wrapper (no register of the code or of the map may be missing from num_registers).",
+         TB + "sizes are counted in characters (ASCII programs); lines contain no exotic str.splitlines separators (hypothesis NoBreaks).",
+         "Lean 4 proof (list induction) + model/code correspondence on real compiler results", "DESIGN.md §4 C17")
+
 ALL = [f"C{i:02d}" for i in range(1, 19)]
 
 
